@@ -110,4 +110,38 @@ CHECKS = {
                 "findings are re-confirmed by scripted inputs and excluded by construction (counted).",
         "assumptions": ["keys inside the reserved prefix are outside the domain", "delete-range bounds are slash-free here (ranges across reserved records belong to no listed property)"],
     },
+    "C16": {
+        "level": "exploration",
+        "tests": [
+            {"pkg": "kvx", "run": "^TestC16_Sequences$", "quick": 4000, "thorough": 100000},
+        ],
+        "floors": {"multi_put_one_prefix": 0.2, "deleted_max": 0.2},
+        "rule": "rapid state machine over a real kv.DB: requests with 1-3 well-formed sequence puts over 1-3 prefixes (1-3 deltas, "
+                "first>0, occasional 2^40, same prefix several times per request, mixed with plain puts), deletes of the "
+                "current maximum, range deletes over part of a sequence, reopen, 0-4 GetSequenceUpdates subscribers attached/"
+                "closed at drawn points and (unless excluded by the listed finding) while a put is parked between key "
+                "generation and batch commit. Oracle: the model recomputes every generated key (prefix + zero-padded "
+                "suffixes of the highest existing key + deltas), checks freshness and monotonicity; after every completed "
+                "write a non-blocking drain of each subscriber yields exactly the latest generated key of its prefix or "
+                "nothing if none was generated; a new subscriber first sees the highest existing key. Non-trivial: >=2 "
+                "sequence puts on one prefix with a delete of the maximum or several puts of one prefix in one request.",
+        "assumptions": ["sums of deltas stay below 2^63 (GetSequenceUpdates scans up to MaxInt64)", "'eventually observes' is checked at quiescence after each completed write"],
+    },
+    "C17": {
+        "level": "exploration",
+        "tests": [
+            {"pkg": "kvx", "run": "^TestC17_Content$", "quick": 3000, "thorough": 80000},
+        ],
+        "floors": {"trim_removed": 0.1},
+        "rule": "rapid state machine over a real kv.DB with notifications enabled: generated write requests (puts+deletes of one "
+                "key, range deletes, session create/close requests, empty requests), reads of the stored notification "
+                "batches from drawn offsets (resume), trimming rounds through the verif hook under an injected clock with "
+                "drawn retention, reopen. Oracle: exactly one batch per applied request, consecutive offsets in order, entry "
+                "timestamp, and content equal to the model's net effect of the request (keys written with resulting "
+                "version id and created/modified type, removed keys covered by a delete or range entry, nothing for "
+                "untouched or internal keys); after a trim every batch with timestamp > now-retention is still served. "
+                "Non-trivial: an interior resume after a reopen, or a trim that removed something.",
+        "assumptions": ["DB level: stream delivery over a leader and across leader changes is checked by the leaderx/clusterx engines when built",
+                        "a put and a later range delete covering it in one request: both entries are accepted (operation order is documented)"],
+    },
 }
